@@ -91,7 +91,9 @@ var c15RuleSets = []c15RuleSet{
 }
 
 var c15Methods = []string{"GET", "POST", "OPTIONS", "HEAD", "DELETE"}
-var c15Paths = []string{"/", "/api", "/api/", "/api/v1", "/apix", "/x/api", "/public", "/public/a", "/private", "/private/public", "/a%2Fpublic", "/api;v=1"}
+var c15Paths = []string{"/", "/api", "/api/", "/api/v1", "/apix", "/x/api", "/public", "/public/a", "/private", "/private/public", "/a%2Fpublic", "/api;v=1",
+	// origin-form targets that begin with two slashes are paths (RFC 7230 5.3.1), not authority + path
+	"//x/api", "//x/public/a", "//api", "//private/public", "/public//a"}
 var c15Queries = []string{"", "?", "?a=1", "?x=/public", "?/api", "?next=/public/a&b=2", "?a=1#/public", "?%2Fpublic", "?x=^/api", "?/private"}
 
 type c15Case struct {
@@ -99,6 +101,7 @@ type c15Case struct {
 	Preflight bool       `json:"preflight"`
 	Method    string     `json:"method"`
 	Target    string     `json:"target"`
+	Via       string     `json:"via,omitempty"` // direct | x-forwarded-uri (auth-only endpoint, reverse-proxy mode)
 	Expected  string     `json:"expected"`
 	Observed  string     `json:"observed"`
 }
@@ -118,8 +121,20 @@ func c15Observe(px *Proxy, up *world.Upstream, method, target string) (exempt bo
 	return !denied, resp.Status, nil
 }
 
-func c15BuildRoutes(rs c15RuleSet, preflight bool, up *world.Upstream) *Proxy {
-	flags := append(baseFlags(up.URL()), "--email-domain=*")
+// c15ObserveForwarded: the nginx auth_request arrangement — the decision is asked of the auth-only
+// endpoint of a proxy in reverse-proxy mode, the request path arrives in X-Forwarded-Uri.
+func c15ObserveForwarded(px *Proxy, up *world.Upstream, method, target string) (exempt bool, status int, pan any) {
+	up.Take()
+	resp := world.Serve(px.H, &world.Req{Method: method, Target: "/oauth2/auth", Host: "app.example.com", Headers: [][2]string{{"X-Forwarded-Uri", target}}})
+	up.Take()
+	if resp.Panic != nil {
+		return false, 0, resp.Panic
+	}
+	return resp.Status == http.StatusAccepted, resp.Status, nil
+}
+
+func c15BuildRoutes(rs c15RuleSet, preflight bool, up *world.Upstream, more ...string) *Proxy {
+	flags := append(append(baseFlags(up.URL()), "--email-domain=*"), more...)
 	for _, r := range rs.Routes {
 		flags = append(flags, "--skip-auth-route="+r)
 	}
@@ -140,63 +155,77 @@ func c15Routes(c *Ctx, up *world.Upstream) {
 			if !c.Mine(caseNo) {
 				continue
 			}
-			px := c15BuildRoutes(rs, preflight, up)
+			pxDirect := c15BuildRoutes(rs, preflight, up)
+			pxRP := c15BuildRoutes(rs, preflight, up, "--reverse-proxy=true")
 			rules := c15ParseRules(rs)
-			for _, method := range c15Methods {
-				for _, path := range c15Paths {
-					u, err := url.ParseRequestURI(path)
-					if err != nil {
-						c.Error("bad path %q", path)
-						continue
-					}
-					e1 := c15Exempt(rules, preflight, method, u.Path)
-					e2 := c15Exempt(rules, preflight, method, u.EscapedPath())
-					var first *bool
-					for _, q := range c15Queries {
-						target := path + q
-						got, status, pan := c15Observe(px, up, method, target)
-						c.Inc("evaluations")
-						cs := c15Case{Rules: rs, Preflight: preflight, Method: method, Target: target,
-							Expected: fmt.Sprintf("exempt(decoded)=%v exempt(escaped)=%v", e1, e2), Observed: fmt.Sprintf("exempt=%v status=%d", got, status)}
-						if pan != nil {
-							c.Violate("C15/panic", fmt.Sprintf("panic %v on %s %s", pan, method, target), len(target), cs)
+			for _, via := range []string{"direct", "x-forwarded-uri"} {
+				px := pxDirect
+				observe := c15Observe
+				if via == "x-forwarded-uri" {
+					px, observe = pxRP, c15ObserveForwarded
+				}
+				for _, method := range c15Methods {
+					for _, path := range c15Paths {
+						u, err := url.ParseRequestURI(path)
+						if err != nil {
+							c.Error("bad path %q", path)
 							continue
 						}
-						c.Sample(4, cs)
-						if e1 || e2 {
-							c.Distinct("distinct_nontrivial", fmt.Sprintf("%v|%v|%s|%s", rs, preflight, method, target))
-						}
-						// relational non-interference: the query must not matter
-						if first == nil {
-							g := got
-							first = &g
-						} else if *first != got {
-							again := func() (string, bool) {
-								a, _, _ := c15Observe(px, up, method, path)
-								b, _, _ := c15Observe(px, up, method, target)
-								return "C15/route-regex-sees-query", a != b
+						e1 := c15Exempt(rules, preflight, method, u.Path)
+						e2 := c15Exempt(rules, preflight, method, u.EscapedPath())
+						var first *bool
+						for _, q := range c15Queries {
+							target := path + q
+							got, status, pan := observe(px, up, method, target)
+							c.Inc("evaluations")
+							c.Inc("route_checks_via_" + via)
+							cs := c15Case{Rules: rs, Preflight: preflight, Method: method, Target: target, Via: via,
+								Expected: fmt.Sprintf("exempt(decoded)=%v exempt(escaped)=%v", e1, e2), Observed: fmt.Sprintf("exempt=%v status=%d", got, status)}
+							if pan != nil {
+								c.Violate("C15/panic", fmt.Sprintf("panic %v on %s %s", pan, method, target), len(target), cs)
+								continue
 							}
-							c.confirm("C15/route-regex-sees-query",
-								fmt.Sprintf("rules %v: %s %s exempt=%v but %s %s exempt=%v: the query string changes the bypass decision", rs, method, path, *first, method, target, got),
-								len(target), cs, again)
-							continue
-						}
-						if e1 != e2 {
-							c.Inc("ambiguous")
-							continue
-						}
-						if got != e1 {
-							again := func() (string, bool) {
-								g, _, _ := c15Observe(px, up, method, target)
-								return "C15/route-decision", g != e1
+							if via == "direct" && (status == http.StatusMovedPermanently || status == http.StatusPermanentRedirect) {
+								// the router's own clean-path redirect (//x -> /x): nothing was decided about this target
+								c.Inc("info_clean_path_redirect_instead_of_a_decision")
+								continue
 							}
-							key := "C15/route-decision"
-							if q != "" {
-								key = "C15/route-regex-sees-query"
-								again = nil
+							c.Sample(4, cs)
+							if e1 || e2 {
+								c.Distinct("distinct_nontrivial", fmt.Sprintf("%v|%v|%s|%s|%s", rs, preflight, method, target, via))
 							}
-							c.confirm(key, fmt.Sprintf("rules %v preflight=%v: %s %s: expected exempt=%v, observed exempt=%v (status %d)", rs, preflight, method, target, e1, got, status),
-								len(target), cs, again)
+							// relational non-interference: the query must not matter
+							if first == nil {
+								g := got
+								first = &g
+							} else if *first != got {
+								again := func() (string, bool) {
+									a, _, _ := observe(px, up, method, path)
+									b, _, _ := observe(px, up, method, target)
+									return "C15/route-regex-sees-query", a != b
+								}
+								c.confirm("C15/route-regex-sees-query",
+									fmt.Sprintf("rules %v: %s %s exempt=%v but %s %s exempt=%v: the query string changes the bypass decision", rs, method, path, *first, method, target, got),
+									len(target), cs, again)
+								continue
+							}
+							if e1 != e2 {
+								c.Inc("ambiguous")
+								continue
+							}
+							if got != e1 {
+								again := func() (string, bool) {
+									g, _, _ := observe(px, up, method, target)
+									return "C15/route-decision", g != e1
+								}
+								key := "C15/route-decision"
+								if q != "" {
+									key = "C15/route-regex-sees-query"
+									again = nil
+								}
+								c.confirm(key, fmt.Sprintf("rules %v preflight=%v: %s %s: expected exempt=%v, observed exempt=%v (status %d)", rs, preflight, method, target, e1, got, status),
+									len(target), cs, again)
+							}
 						}
 					}
 				}
@@ -313,7 +342,10 @@ func c15TrustedIPs(c *Ctx, up *world.Upstream) {
 			}
 			if got != want {
 				c.confirm("C15/trusted-ip-decision", fmt.Sprintf("trusted-ip %v: remote %s: expected trusted=%v, observed %v", set, remote, want, got), len(remote), cs,
-					func() (string, bool) { req.RemoteAddr = remote; return "C15/trusted-ip-decision", px.P.isTrustedIP(req) != want })
+					func() (string, bool) {
+						req.RemoteAddr = remote
+						return "C15/trusted-ip-decision", px.P.isTrustedIP(req) != want
+					})
 			}
 			if full {
 				c.Inc("full_proxy_address_requests")
@@ -352,6 +384,75 @@ func c15TrustedIPs(c *Ctx, up *world.Upstream) {
 			check(dotted+":1234", ip, full)
 			check(fmt.Sprintf("[::ffff:%s]:1234", dotted), ip, full)
 			check(fmt.Sprintf("[::ffff:a01:%x]:1234", x), ip, false)
+		}
+		// the same universe as the client address a front proxy reports (reverse-proxy mode with a
+		// real-client-IP header; the peer itself is an address outside every network): the notations a
+		// header can carry — bare, with port, IPv4-mapped dotted (bare, bracketed with port, long form),
+		// IPv4-mapped hex, and as first element of a list
+		for _, hdrName := range []string{"X-Forwarded-For", "X-Real-IP"} {
+			pxH := mustProxy(&ProxyCfg{Flags: append(append([]string{}, flags...), "--reverse-proxy=true", "--real-client-ip-header="+hdrName)})
+			reqH, _ := http.NewRequest("GET", "http://app.example.com/x", nil)
+			reqH.RemoteAddr = "198.51.100.77:40000"
+			checkH := func(value string, ip net.IP) {
+				want := c15RefTrusted(nets, ip)
+				c.Inc("evaluations")
+				c.Inc("address_checks_header_borne")
+				var got bool
+				var pan any
+				func() {
+					defer func() {
+						if r := recover(); r != nil {
+							pan = r
+						}
+					}()
+					reqH.Header.Set(hdrName, value)
+					got = pxH.P.isTrustedIP(reqH)
+				}()
+				cs := c15IPCase{Nets: set, Remote: hdrName + ": " + value, Expected: want, Observed: fmt.Sprintf("trusted=%v panic=%v", got, pan)}
+				if want {
+					c.Distinct("distinct_nontrivial", fmt.Sprintf("%d|%s|%s", si, hdrName, value))
+				}
+				if pan != nil {
+					c.Violate("C15/trusted-ip-panic", fmt.Sprintf("trusted-ip %v: %s: %s panics: %v", set, hdrName, value, pan), len(value), cs)
+				} else if got != want {
+					c.confirm("C15/trusted-ip-decision-header", fmt.Sprintf("trusted-ip %v, client address reported in %s: %q: expected trusted=%v, observed %v", set, hdrName, value, want, got), len(value), cs,
+						func() (string, bool) {
+							reqH.Header.Set(hdrName, value)
+							return "C15/trusted-ip-decision-header", pxH.P.isTrustedIP(reqH) != want
+						})
+				}
+			}
+			hstep := 1
+			if c.Quick() {
+				hstep = 7 // every 7th address of the /16 (all boundary addresses are added below)
+			}
+			probe := func(x int) {
+				a, b := byte(x>>8), byte(x)
+				ip := net.IPv4(10, 1, a, b)
+				dotted := fmt.Sprintf("10.1.%d.%d", a, b)
+				checkH(dotted, ip)
+				checkH(dotted+":4711", ip)
+				checkH("::ffff:"+dotted, ip)
+				checkH("[::ffff:"+dotted+"]:4711", ip)
+				checkH(fmt.Sprintf("::ffff:a01:%x", x), ip)
+				checkH("0:0:0:0:0:ffff:"+dotted, ip)
+				checkH(dotted+", 203.0.113.9", ip)
+				checkH(" ::ffff:"+dotted+" , 10.1.0.1", ip)
+			}
+			for x := 0; x < 65536; x += hstep {
+				probe(x)
+			}
+			for d := range boundary {
+				if ip := net.ParseIP(d).To4(); ip != nil && ip[0] == 10 && ip[1] == 1 {
+					probe(int(ip[2])<<8 | int(ip[3]))
+				}
+			}
+			for x := 0; x < 65536; x += hstep {
+				ip := net.ParseIP(fmt.Sprintf("fd00::%x", x))
+				checkH(fmt.Sprintf("fd00::%x", x), ip)
+				checkH(fmt.Sprintf("[fd00::%x]:443", x), ip)
+				checkH(fmt.Sprintf("fd00:0:0:0:0:0:0:%x", x), ip)
+			}
 		}
 		// every address of fd00::/112
 		for x := 0; x < 65536; x += step {
@@ -426,9 +527,9 @@ func ipAdd(ip net.IP, d int) net.IP {
 
 func init() {
 	register(&checkDef{
-		id:    "C15",
-		level: "exploration",
-		rule: "full product methods x paths x queries x rule-sets x preflight through ServeHTTP (reference: regex on the path only, decoded and escaped readings; relational: outcome independent of the query) + every address of 10.1.0.0/16 (dotted, IPv4-mapped, hex-mapped) and of fd00::/112 per network set through isTrustedIP against net.IPNet.Contains, boundary addresses through ServeHTTP; non-trivial = case whose expected outcome is 'exempt'/'trusted'",
+		id:          "C15",
+		level:       "exploration",
+		rule:        "full product methods x paths x queries x rule-sets x preflight through ServeHTTP (reference: regex on the path only, decoded and escaped readings; relational: outcome independent of the query) + every address of 10.1.0.0/16 (dotted, IPv4-mapped, hex-mapped) and of fd00::/112 per network set through isTrustedIP against net.IPNet.Contains, boundary addresses through ServeHTTP; non-trivial = case whose expected outcome is 'exempt'/'trusted'",
 		assumptions: []string{"path reading: URL.Path and EscapedPath both admissible; cases where they differ are counted as ambiguous", "exempt is observed as: status is neither 401 nor 403, or the upstream was hit"},
 		shards:      func(tier string) int { return 16 },
 		run: func(c *Ctx) {
@@ -448,10 +549,21 @@ func init() {
 			up := world.NewUpstream("u")
 			defer up.Close()
 			px := c15BuildRoutes(cs.Rules, cs.Preflight, up)
-			got, status, pan := c15Observe(px, up, cs.Method, cs.Target)
-			base, _, _ := c15Observe(px, up, cs.Method, pathOf(cs.Target))
+			observe := c15Observe
+			if cs.Via == "x-forwarded-uri" {
+				px, observe = c15BuildRoutes(cs.Rules, cs.Preflight, up, "--reverse-proxy=true"), c15ObserveForwarded
+			}
+			got, status, pan := observe(px, up, cs.Method, cs.Target)
+			base, _, _ := observe(px, up, cs.Method, pathOf(cs.Target))
 			if base != got {
 				c.Violate("C15/route-regex-sees-query", "query changes the decision", 1, cs)
+			}
+			if u, err := url.ParseRequestURI(pathOf(cs.Target)); err == nil {
+				rules := c15ParseRules(cs.Rules)
+				e1, e2 := c15Exempt(rules, cs.Preflight, cs.Method, u.Path), c15Exempt(rules, cs.Preflight, cs.Method, u.EscapedPath())
+				if e1 == e2 && got != e1 && pan == nil {
+					c.Violate("C15/route-decision", fmt.Sprintf("expected exempt=%v, observed exempt=%v (status %d)", e1, got, status), 1, cs)
+				}
 			}
 			return fmt.Sprintf("exempt=%v status=%d panic=%v; same path without query: exempt=%v", got, status, pan, base)
 		},
